@@ -13,8 +13,8 @@
    C13's), everything else is computed by the specification - including isPSIComplete, byte for byte. *)
 EXTENDS MonBase
 \* the monitor uses PacketPool's operators (AddStep, DumpNext, Parsed), not its variables
-PP == INSTANCE PacketPool WITH PIDS <- {}, CCMOD <- 16, PAYLOADS <- {}, PATPIDS <- {}, MaxSteps <- 0,
-                               q <- 0, pmap <- 0, out <- 0, lost <- 0, steps <- 0, ended <- 0
+PP == INSTANCE PacketPool WITH PIDS <- {}, CCMOD <- 16, PAYLOADS <- {}, PATPIDS <- {}, CCS <- {}, MaxSteps <- 0,
+                               q <- 0, pmap <- 0, out <- 0, lost <- 0, steps <- 0, ended <- 0, hist <- 0
 VARIABLES l, st
 mvars == <<l, st>>
 
